@@ -262,9 +262,10 @@ var l1TypeGen = rapid.OneOf(
 	rapid.Uint8(), // "other": whatever the caller passes must come back unchanged
 )
 
+// l1MaxLen bounds the WebSocket units whose payload is materialised.
 func l1MaxLen() int {
 	if pbt.Thorough() {
-		return 2 << 20
+		return 1 << 20
 	}
 	return 300 << 10
 }
@@ -291,14 +292,19 @@ func l1LenGen(big bool) *rapid.Generator[int] {
 			if !big {
 				return rapid.IntRange(0, 70000).Draw(t, "mid2")
 			}
-			if pbt.Thorough() && rapid.IntRange(0, 9).Draw(t, "huge") == 0 {
-				// the 24-bit limit; ~0.5 % of thorough cases, 16 MiB each
-				return rapid.OneOf(
-					rapid.SampledFrom([]int{flvref.MaxDataSize, flvref.MaxDataSize - 1, 1 << 23, 1<<23 - 1}),
-					rapid.IntRange(2<<20, flvref.MaxDataSize),
-				).Draw(t, "hugeLen")
+			if pbt.Thorough() {
+				switch k := rapid.IntRange(0, 19).Draw(t, "thoroughLarge"); {
+				case k == 0:
+					// the 24-bit limit; ~0.5 % of thorough cases, up to 16 MiB each
+					return rapid.OneOf(
+						rapid.SampledFrom([]int{flvref.MaxDataSize, flvref.MaxDataSize - 1, 1 << 23, 1<<23 - 1}),
+						rapid.IntRange(2<<20, flvref.MaxDataSize),
+					).Draw(t, "hugeLen")
+				case k <= 3:
+					return rapid.IntRange(300<<10, 2<<20).Draw(t, "larger")
+				}
 			}
-			return rapid.IntRange(65536, l1MaxLen()).Draw(t, "large")
+			return rapid.IntRange(65536, 300<<10).Draw(t, "large")
 		}
 	})
 }
